@@ -330,10 +330,12 @@ Fixpoint dedup (l : list string) : list string :=
   | x :: r => if existsb (String.eqb x) r then dedup r else x :: dedup r
   end.
 
-(* the merge of dirty / deleted / added ingresses of syncPartial: names first *)
+(* the merge of dirty / deleted / updated / added ingresses of syncPartial: names first.
+   Updated ingresses are always part of the list (an ingress that configured nothing so
+   far has no tracking link, so the tracker does not find it), unless also deleted. *)
 Definition merge_names (dirty : list string) (b : batch) : list string :=
-  let after_del := filter (fun n => negb (existsb (String.eqb n) (b_del b))) dirty in
-  dedup (after_del ++ map i_full (b_add b)).
+  let alive := fun n => negb (existsb (String.eqb n) (b_del b)) in
+  dedup (filter alive dirty ++ filter alive (map i_full (b_upd b)) ++ map i_full (b_add b)).
 
 (* the object synced for a name: the added object of that name if any -- unless the
    same ingress was also updated or deleted in the batch, then the lists do not tell what
